@@ -6,6 +6,7 @@ import (
 	"encoding/base64"
 	"encoding/json"
 	"fmt"
+	"net/url"
 	"sort"
 	"strings"
 	"testing"
@@ -35,6 +36,9 @@ type c04Case struct {
 	// RepeatStart: V2 follow-up requests carry start-after again next to the continuation token
 	// (what the AWS SDK paginators do); the token must win.
 	RepeatStart bool `json:"repeatStart,omitempty"`
+	// Enc: the requests carry encoding-type=url (what boto3 and the aws cli send); a server that
+	// honours it says so in the answer, whose keys and markers the client then decodes
+	Enc bool `json:"enc,omitempty"`
 }
 
 type c04Page struct {
@@ -68,12 +72,30 @@ func c04Fetch(st *backends.Stack, cs c04Case, cont string, contKind string, firs
 	case first && cs.HasStart:
 		q = append(q, "start-after", cs.Start)
 	}
+	if cs.Enc {
+		q = append(q, "encoding-type", "url")
+	}
 	doc, r := listDoc(st, "bk0", q...)
 	if doc == nil {
 		if r.Panic != "" {
 			return nil, r, dsc("panic", "%s at %s", r.Panic, r.PanicSite)
 		}
 		return nil, r, dsc("page-failed", "page request %v answered %s", q, r)
+	}
+	if doc.EncodingType == "url" {
+		dec := func(s string) string {
+			if u, err := url.QueryUnescape(s); err == nil {
+				return u
+			}
+			return s
+		}
+		for i := range doc.Contents {
+			doc.Contents[i].Key = dec(doc.Contents[i].Key)
+		}
+		for i := range doc.CommonPrefixes {
+			doc.CommonPrefixes[i].Prefix = dec(doc.CommonPrefixes[i].Prefix)
+		}
+		doc.NextMarker = dec(doc.NextMarker) // the continuation token is opaque: sent back as it came
 	}
 	pg := &c04Page{truncated: doc.IsTruncated}
 	var ds []disc
@@ -502,7 +524,7 @@ func c04Run(t *testing.T, c *evid.Collector) {
 		if versioned {
 			s3x.Do(st.Handler, &s3x.Req{Method: "PUT", Path: "/bk0", Query: s3x.Q("versioning", s3x.Bare), Body: []byte(`<VersioningConfiguration><Status>Enabled</Status></VersioningConfiguration>`)})
 		}
-		segGen := rapid.OneOf(rapid.StringMatching(`[a-d]{1,2}`), rapid.SampledFrom([]string{"x.y", "é", "a b", "0", "zz"}))
+		segGen := rapid.OneOf(rapid.StringMatching(`[a-d]{1,2}`), rapid.SampledFrom([]string{"x.y", "é", "a b", "0", "zz", "a+d", "a c", "(b)", "100%", "a&b", "q?"}))
 		nkeys := rapid.IntRange(1, 60).Draw(rt, "nkeys")
 		live := map[string]bool{}
 		var marked []string
@@ -545,6 +567,7 @@ func c04Run(t *testing.T, c *evid.Collector) {
 				}
 			}
 			cs.MaxKeys = rapid.IntRange(1, len(ks)+2).Draw(rt, "maxkeys")
+			cs.Enc = rapid.IntRange(0, 2).Draw(rt, "enc") == 0
 			if rapid.IntRange(0, 3).Draw(rt, "start") == 0 {
 				cs.HasStart = true
 				pool := append(append([]string(nil), ks...), mk2...)
